@@ -164,6 +164,9 @@ def check_property(prop, tier, seed, timeout_s):
         from . import cliwiring
         wobls, _opts = cliwiring.obligations()
         all_obls += wobls
+    if spec.get("wiring_gamma"):
+        from . import gammawiring
+        all_obls += gammawiring.compute_gamma_obligations() if spec["wiring_gamma"] == "C05" else gammawiring.gamma_k_obligations()
     if spec.get("wiring_fast"):
         from . import fastwiring
         all_obls += fastwiring.obligations()
@@ -287,8 +290,9 @@ def check_property(prop, tier, seed, timeout_s):
         "assumptions": trusted + ["lemmas proved by induction are proved once per function from its axioms and requires "
                                   "and assumed at call sites after the callee's requires were discharged"],
     }
-    os.makedirs(os.path.join(ROOT, "evidence"), exist_ok=True)
-    json.dump(evidence, open(os.path.join(ROOT, "evidence", f"{prop}.json"), "w"), indent=1)
+    evdir = os.environ.get("VERIF_EVIDENCE_DIR") or os.path.join(ROOT, "evidence")     # (development runs on mutated trees write elsewhere)
+    os.makedirs(evdir, exist_ok=True)
+    json.dump(evidence, open(os.path.join(evdir, f"{prop}.json"), "w"), indent=1)
     for k in known_seen:
         print(f"KNOWN-FINDING: property={prop} {k['what']} [{k['obligation']}]")
     print(f"{prop}: {n_dis}/{len(all_obls)} obligations discharged over {len(engines)} functions "
